@@ -86,6 +86,15 @@ Ltac auth_gc := apply sv_bind; [apply authenticated_gc|]; intros [?c|]; [|exact 
 
 Lemma cc_grant_gc w n now r : saves_ok gcode0 anyA2 (cc_grant w n now r).
 Proof. unfold cc_grant. break_goal; [exact I|]. auth_gc. crunch1. Qed.
+Lemma jwt_bearer_client_gc w cr : saves_ok gcode0 anyA2 (jwt_bearer_client w cr).
+Proof.
+  unfold jwt_bearer_client. apply sv_bind; [apply authenticated_gc|]. intros [c|]; [exact I|]. destruct (_ && _)%bool; exact I.
+Qed.
+Lemma jwt_bearer_grant_gc w n now r : saves_ok gcode0 anyA2 (jwt_bearer_grant w n now r).
+Proof.
+  unfold jwt_bearer_grant. break_goal; [exact I|].
+  apply sv_bind; [apply jwt_bearer_client_gc|]; intros [c|]; [|exact I]. crunch1.
+Qed.
 Lemma ciba_grant_gc w n now r : saves_ok gcode0 anyA2 (ciba_grant w n now r).
 Proof. unfold ciba_grant. break_goal; [exact I|]. auth_gc. crunch1. Qed.
 
@@ -220,7 +229,7 @@ Proof.
     + rewrite !run_lift. cbn [fst snd]. intros H.
       destruct (refresh_grant_effect w n (s_now st) r (s_store st) g' H) as [X|X]; auto.
     + cbn. auto.
-    + cbn. auto.
+    + intros H. destruct (Q _ (jwt_bearer_grant_gc w n (s_now st) r) H); auto.
     + intros H. destruct (Q _ (ciba_grant_gc w n (s_now st) r) H); auto.
   - intros H. destruct (Q _ (introspect_gc w (s_now st) r) H); auto.
   - intros H. destruct (Q _ (revoke_gc w (s_now st) r) H); auto.
